@@ -28,6 +28,8 @@ func Run(o *drv.Out) {
 	CorpusLockedAtRootBoundary(o, 10)
 	CorpusLockedAtRootBoundary(o, 9)
 	CorpusLockSurvivesCommitteeChange(o)
+	CorpusOldRootLockVsNewRootLock(o, 4, []int{0}, []int{1})
+	CorpusOldRootLockVsNewRootLock(o, 7, []int{0, 6}, []int{1, 2})
 	CorpusPhaseSplitInterrupt(o, [7]int{1500, 1500, 2500, 4000, 2000, 12000, 2000})
 	CorpusPhaseSplitInterrupt(o, [7]int{1500, 1500, 2500, 4000, 12000, 2000, 2000})
 	CorpusPhaseSplitInterrupt(o, [7]int{800, 1200, 9000, 1500, 1000, 7000, 3000})
